@@ -62,7 +62,9 @@ Lemma nd_pconn f c x : emits (among f) (pconn c x).  Proof. apply emits_modst. Q
 Lemma nd_del_table f i : emits (among f) (del_table i).  Proof. apply emits_modst. Qed.
 Lemma nd_wake f t : emits (among f) (wake t).  Proof. apply emits_modst. Qed.
 Lemma nd_block f me k : emits (among f) (block me k).  Proof. apply emits_modst. Qed.
-#[export] Hint Resolve nd_psess nd_upd nd_pconn nd_del_table nd_wake nd_block : em.
+Lemma nd_del_tables f l : emits (among f) (del_tables l).
+Proof. induction l as [|i r IH]; cbn [del_tables]; [apply emits_ret | apply emits_bind; [apply nd_del_table | intros ?; exact IH]]. Qed.
+#[export] Hint Resolve nd_psess nd_upd nd_pconn nd_del_table nd_del_tables nd_wake nd_block : em.
 Lemma nd_wake_all f l : emits (among f) (wake_all l).
 Proof. induction l as [|t r IH]; cbn [wake_all]; [apply emits_ret | apply emits_bind; [apply nd_wake | intros ?; exact IH]]. Qed.
 #[export] Hint Resolve nd_wake_all : em.
@@ -205,7 +207,7 @@ Definition reasons_of (k : task) : list reason :=
   | TWsProbe _ _ _ | TWsUpgr _ _ _ | TWsRead _ _ _ _ _ _ => WS
   | TWsJoinW _ _ _ _ _ => [RTransportClose]
   | TJoin _ _ | TCloseOne _ _ => [RServer]
-  | TPingStart _ | TWaitAll _ _ => []
+  | TPingStart _ | TWaitAll _ _ _ => []
   | TPing _ _ | TSvcStart | TSvcIdle _ | TSvcVisit _ _ _ => [RPingTimeout]
   | THandler _ _ _ => [RPingTimeout; RServer]
   end.
